@@ -89,9 +89,17 @@ class World:
             r = h(it, ('compare', name), (a, b))
             if r is not NotImplemented: return r
         if isinstance(a, (tuple, list)) and isinstance(b, (tuple, list)) and (any(is_sym(x) for x in a) or any(is_sym(x) for x in b)):
-            if name not in ('Eq', 'NotEq'): raise Outside('ordering of symbolic tuples')
-            if len(a) != len(b): return name == 'NotEq'
             import ast as _ast
+            if name not in ('Eq', 'NotEq'):
+                # lexicographic order of equally long symbolic tuples
+                if len(a) != len(b): raise Outside('ordering of symbolic tuples of different length')
+                def B(c): return z3.BoolVal(c) if isinstance(c, bool) else c
+                strict = {'Lt': _ast.Lt, 'LtE': _ast.Lt, 'Gt': _ast.Gt, 'GtE': _ast.Gt}[name]
+                res = z3.BoolVal(name in ('LtE', 'GtE'))           # all components equal
+                for x, y in reversed(list(zip(a, b))):
+                    res = z3.Or(B(it.compare(strict, x, y)), z3.And(B(it.compare(_ast.Eq, x, y)), res))
+                return z3.simplify(res)
+            if len(a) != len(b): return name == 'NotEq'
             cs = [it.compare(_ast.Eq, x, y) for x, y in zip(a, b)]
             if all(isinstance(c, bool) for c in cs): r = all(cs)
             else: r = z3.And(*[c if not isinstance(c, bool) else z3.BoolVal(c) for c in cs])
@@ -300,7 +308,18 @@ def _b_all(it, xs):
 def _minmax(is_min):
     def f(it, *args, key=None, default=NotImplemented):
         import ast
-        if key is not None: raise Outside('min/max with key')
+        if key is not None:
+            import operator as _op
+            if isinstance(key, _op.attrgetter):
+                names_ = key.__reduce__()[1]
+                if len(names_) != 1 or '.' in names_[0]: raise Outside('min/max with a compound attrgetter key')
+                attr_ = names_[0]
+                keyf = lambda x: it.getattr(x, attr_)
+            else:
+                keyf = lambda x: it.call(key, [x], {})
+            if len(args) == 1 and isinstance(args[0], SymVal) and hasattr(args[0], 'sym_minmax_key'):
+                return args[0].sym_minmax_key(it, is_min, default, keyf)
+            raise Outside('min/max with key')
         if len(args) == 1 and isinstance(args[0], SymVal) and hasattr(args[0], 'sym_minmax'):
             return args[0].sym_minmax(it, is_min, default)
         items = it.iterate(args[0]) if len(args) == 1 else list(args)
